@@ -10,7 +10,7 @@
      ==  bool  repr         use __raw_get only: no write at all
      to_dict / to_json /    read EVERY readable field with getattr (whatever they then decide to print), recurse into
      to_pydict              every element of a repeated message field, every message value of a map, and into a
-                            singular message when it is flagged, selected in its group or include_default_values
+                            singular message when it is flagged, proto3-optional (commit 159e9fd), selected in its group or include_default_values
                             ([todict_obj]; fuel = Python's recursion depth, include_default_values=True on a
                             recursive message type does not terminate in Python either: RecursionError) *)
 From BP Require Import Base.Prelude Model.Types Model.Float Model.Object Model.Eq Model.Encode Model.Decode.
@@ -146,7 +146,7 @@ Fixpoint todict_obj (n : nat) (sc : schema) (idv : bool) (o : obj) {struct n} : 
                              | _ =>
                                  match v with
                                  | PMsg ch =>
-                                     if osow ch || idv || (match sel with Some true => true | _ => false end)
+                                     if osow ch || idv || fopt f || (match sel with Some true => true | _ => false end)
                                      then PMsg (todict_obj n' sc idv ch) else v
                                  | _ => v
                                  end
